@@ -42,7 +42,8 @@ CONFIG = {
     'must_sig': ['states:mixed', 'states:str', 'states:tuple',
                  'states:frozenset', 'labels:nonstring', 'labels:lookalike',
                  'atoms:absent', 'atoms:quoted', 'depth:>=50', 'logic:CTL',
-                 'logic:LTL', 'logic:CTLS', 'ctls:fresh_atom_collision'],
+                 'logic:LTL', 'logic:CTLS', 'ctls:fresh_atom_collision',
+                 'labels:spell_fresh_atoms'],
     'rule': ('cases = (structure with heterogeneous state names / label '
              'values, formula, logic, style); generated from seeded random '
              'structures (<=8 states) renamed through 6 state-naming schemes, '
@@ -215,10 +216,43 @@ def text_for(logic, t):
 _parsers = {}
 
 
+def spell_fresh_atoms(nk2, t, r):
+    """Add labels that spell the names CTL* model checking would invent for
+    the quantified subformulas of t."""
+    from pyModelChecking import CTLS
+    names = set()
+
+    def walk(x):
+        if x[0] in ('ap', 'bool'):
+            return
+        if x[0] in ('A', 'E'):
+            try:
+                f = build(CTLS, x)
+                names.add('[%s]' % f)
+                names.add('[[%s](0)]' % f)
+                names.add('[%s]' % CTLS.A(CTLS.LNot(build(CTLS, x[1]))))
+            except Exception:
+                pass
+        for c in x[1:]:
+            walk(c)
+    walk(t)
+    labels = [set(l) for l in nk2.labels]
+    for nm in names:
+        for i in range(nk2.n):
+            if r.random() < 0.4:
+                labels[i].add(nm)
+    LOG.sig['labels:spell_fresh_atoms'] += 1
+    nk3 = NK(nk2.states, nk2.succ, [frozenset(l) for l in labels])
+    return nk3, make_kripke(nk3.n, nk3.succ, labels, list(nk3.states))
+
+
 def one_case(r, i):
     nk2, K, nm, sflags = make_structure(r)
     logic = ('CTL', 'LTL', 'CTLS')[i % 3]
     t, fflags = make_formula(r, logic)
+    if logic == 'CTLS' and i % 2 == 0 and 'depth:>=50' not in fflags:
+        nk2, K = spell_fresh_atoms(nk2, t, r)
+        sflags = set(sflags) | {'labels:lookalike'}
     for f in fflags:
         LOG.sig[f] += 1
     L = lang(logic)
